@@ -95,7 +95,8 @@ def cfg_term(scn, nm: Names) -> str:
     return q.crecord(
         c_insts=q.clist(insts), c_points=q.clist(q.cz(p) for p in points),
         c_runahead=q.cnat(scn["runahead"]), c_qlimits=q.clist(q.cnat(x) for x in qlimits),
-        c_icp=q.cz(scn["icp"]), c_fcp=q.cz(scn["fcp"]), c_start=q.cz(scn.get("startcp", scn["icp"])))
+        c_icp=q.cz(scn["icp"]), c_fcp=q.cz(scn["fcp"]), c_start=q.cz(scn.get("startcp", scn["icp"])),
+        c_future=q.clist(q.cz(S.future_offset(scn, t)) for t in scn["tasks"]))
 
 
 def sat_keys(view, icp, start=None):
